@@ -196,3 +196,11 @@ def with_tree_components(rng, g, t):
             comp = {'n': k, 'edges': [(0, i, rng.randint(1, 3)) for i in range(1, k)]}
         out = union(out, comp)
     return out
+
+
+def theta(n, heavy, light):
+    """two hubs 0,1 joined by one heavy edge (inserted first, lowest endpoints) and n light two-edge paths between them"""
+    es = [(0, 1, heavy)]
+    for i in range(n):
+        es.append((0, 2 + i, light)); es.append((2 + i, 1, light))
+    return {'n': n + 2, 'edges': es}
